@@ -20,9 +20,22 @@ def cases(tier, rng):
         w, h = rng.choice([(rng.randrange(0, 60), rng.randrange(0, 60)), (rng.randrange(0, 6), rng.randrange(0, 100)),
                            (rng.randrange(0, 100), rng.randrange(0, 6))])
         yield J('ell_geom', x, y, w, h, 2)
+    yield from _machine(tier, rng)
+
+
+def _machine(tier, rng):
+    # contains() alone at display scale and on both sides of the machine range (suites and generator of C05)
+    import C05
+    for k, l in enumerate(C05.machine_cases(tier, rng)):
+        if k % 4 == 0:
+            yield l
 
 
 def search(tier, rng):
+    for d in [1, 11, 240, 20000, 32768]:
+        yield J('p_circ_far', -7, 3, d)
+    for (w, h) in [(320, 240), (1000, 500), (3, 200)]:
+        yield J('p_ell_far', -7, 3, w, h)
     N = 48 if tier == 'quick' else 128
     for d in range(0, N + 1):
         x, y = POSITIONS[d % 4]
@@ -53,9 +66,9 @@ RULE = ('Circle/Ellipse integer part: correspondence of contains() over box+marg
         'against the ideal circle/ellipse in exact integer arithmetic, mirror symmetry, row and column contiguity, circle touches its box, '
         'circle == equal-axes ellipse for contains() and points(). non-trivial = the shape has a point.')
 EXHAUSTIVE = {'quick': False, 'thorough': False}
-ASSUMPTIONS = ['Circle/Ellipse part: band, symmetry and contiguity hold for all integers in the model (no range hypothesis except diameter / axes >= 1 '
-               'where stated); touches-box and points() equality need the top-left within +-2^29 and the diameter within 2^29; products are '
-               'unbounded integers in the model (machine ranges: C05 assumptions / C08)']
+ASSUMPTIONS = ['Circle/Ellipse part: shapes within the machine range of C05 (circle: top-left within +-2^29, d <= 2^15; ellipse: w*h <= 2^31) and '
+               'probe points for which contains() does not overflow (probe_ok / eprobe_ok, exact conditions, see C05); outside that range the '
+               'code panics (overflow checks) or wraps (release) and band / symmetry / equality with the ellipse are not claimed']
 TRUSTED = []
 PARTIAL = []
 
